@@ -185,13 +185,13 @@ theorem pick_range_map {α : Type} (l : List α) (f : Nat → Nat) (n : Nat) (hf
 /-- **`a[start:stop:step]`** (any signs): whenever the slice is accepted, the result is a fresh, dense,
     writable array holding exactly `list[start:stop:step]`; nothing else in the heap changes. -/
 theorem getslice_refines {h : Heap} {v : View} (w : v.WF (shape h)) {a b c : Option Int}
-    (hc : ∀ x, c = some x → -PY_SSIZE_T_MAX ≤ x) {h' : Heap} {f : View}
-    (hr : getslice h v (.slice a b c) = .ok (h', f)) :
+    (hc : ∀ x, c = some x → -PY_SSIZE_T_MAX ≤ x) {h' : Heap} {f : View} {ms : Int}
+    (hr : getslice h v (.slice a b c) ms = .ok (h', f)) :
     PyList.getslice (v.toList h) a b c = some (f.toList h') ∧
     f.WF (shape h') ∧ f.writable = true ∧ f.indices = none ∧ f.buf = h.length ∧
     (∃ vals, h' = h ++ [vals]) := by
   unfold getslice at hr
-  cases hs : extractSliceIndices v.length (.slice a b c) with
+  cases hs : extractSliceIndices v.length (.slice a b c) (-1) ms with
   | error e => simp [hs] at hr
   | ok s =>
     simp only [hs] at hr
@@ -215,7 +215,7 @@ theorem getslice_refines {h : Heap} {v : View} (w : v.WF (shape h)) {a b c : Opt
         -- direct arithmetic bound instead
         clear hsp
         obtain ⟨h1, h2, h3⟩ := extract_slice_form w.lenOk hc hs
-        rcases h3 with ⟨hpos, hst, hl⟩ | ⟨hneg, hS, hst, hl⟩
+        rcases h3 with ⟨hpos, hst, hl⟩ | ⟨hneg, hst, hl⟩
         · rw [hl]; unfold countUp
           have hE := boundUp_le (n := v.length) b (Nat.le_refl _)
           split
